@@ -169,7 +169,8 @@ def install_ancestry(env):
         for s in sources:
             u = join(u, reach(I, s))
         new = I.fresh_term('merge_commits', CSET, False)
-        if len(sources) == 1:
+        if len(sources) == 1 and not kw.get('force_commit'):
+            # (--no-ff, i.e. force_commit=True, always creates a commit)
             rs = reach(I, sources[0])
             I.assume(smt.Implies(smt.Or(leq(cur, rs), leq(rs, cur)), smt.Eq(new, BOT)))
         emit(I, 'merge', self, tuple(sources))
@@ -742,7 +743,21 @@ def replay_file(data):
 
 META = {
     'level': 'other',
-    'explanation': 'per-function contracts over a ghost ancestry model of git (R: branch -> reachable commits)',
-    'assumptions': [],
+    'explanation': __doc__,
+    'assumptions': [
+        'git semantics of the ancestry model: a conflict-free merge makes dst reach old dst, the sources and possibly new '
+        'merge commits; a single-source merge that is a fast-forward or a no-op adds no commit; checkout -b copies; a '
+        'failed merge leaves the refs alone; `git reset --hard <the checked-out branch>` moves no ref; Branch.differs '
+        'may answer anything',
+        'commit sets are an abstract join-semilattice (proofs) / subsets of a 4-commit universe (refutations)',
+        'the targets of a pull request are distinct destination branches (C09) and its integration branches are the '
+        'source branch followed by w/ branches (C19); no destination or source branch is named tmp/..., versions are '
+        'not w/... (C18)',
+        'merge_queues: the selected entries are nested across versions and what is selected on a version is selected '
+        'on every later one - ASSUMED contract of QueueCollection.mergeable_queues (selection + vertical validation), '
+        'decided only by the bounded stand-in bounded/c05_queue.py',
+        'the step from per-function facts to "after every event of every history" is bounded '
+        '(bounded/system_histories.py, clause C01_inclusion), not proved',
+    ],
     'trusted_base': [],
 }
